@@ -368,16 +368,37 @@ fn patch_1029(rng: &mut Rng, p: &mut Vec<u8>) -> Hostile {
         return Hostile::None;
     }
     let valid = rng.bool();
-    let text: Vec<u8> = if valid {
+    let mut text: Vec<u8> = if valid {
         let s = strings::random_text(rng, 255);
         s.into_bytes()
     } else {
         strings::invalid_utf8(rng)
     };
+    if valid && rng.chance(1, 4) {
+        // a C string in a fixed buffer: wide characters, then NUL fill
+        let mut s: String = String::new();
+        for _ in 0..rng.range(1, 20) {
+            s.push(*rng.pick(&['a', '\u{e9}', '\u{4e2d}', '\u{1f6f0}', 'Z', '\u{df}']));
+        }
+        for _ in 0..rng.range(1, 12) {
+            s.push('\0');
+        }
+        text = s.into_bytes();
+        text.truncate(255);
+        while std::str::from_utf8(&text).is_err() {
+            text.pop();
+        }
+    }
     let hdr = layout::M1029_TEXT_BIT / 8;
     p.truncate(hdr);
     let declared = if rng.chance(1, 8) { rng.below(256) as usize } else { text.len().min(255) };
-    let chars = if rng.chance(1, 4) { rng.below(128) as usize } else { String::from_utf8_lossy(&text).chars().count().min(127) };
+    let plausible = String::from_utf8_lossy(&text).chars().count().min(127);
+    let chars = match rng.below(8) {
+        0 => 0,
+        1 => plausible.saturating_sub(rng.range(1, 4) as usize),
+        2 | 3 => rng.below(128) as usize,
+        _ => plausible,
+    };
     bits::write(p, layout::M1029_CHARS_BIT, 7, chars as u128);
     bits::write(p, layout::M1029_BYTES_BIT, 8, declared as u128);
     p.extend_from_slice(&text[..text.len().min(255)]);
